@@ -157,7 +157,8 @@ class Ctx:
     def assume(self, fact):
         if isinstance(fact, bool):
             if not fact:
-                raise PathEnd()
+                # a concretely false assumption is almost always a specification / kind error: be loud
+                raise EngineLimit("an assumed clause is concretely false (contract or kind declaration error?)")
             return
         self.pc.append(fact)
         if self.bound:
@@ -231,6 +232,8 @@ class FunctionResult:
         self._keep = []
         self.entry_pc = None
         self.entry_axioms = None
+        self.normal_paths = 0
+        self.raising_paths = 0
 
 
 class Engine:
@@ -728,6 +731,8 @@ class Engine:
             return simple[s]
         try:
             c = self.class_by_name(s.split(".")[-1])
+            if self.is_enum_class(c):
+                return V.EnumOf(c.qualname)
             return V.ObjOf(c.qualname)
         except KeyError:
             return None
@@ -778,9 +783,13 @@ class Engine:
             if finfo.is_generator:
                 result = V.GeneratorV(ctx.yielded)
         except PyRaise as pr:
+            if res is not None:
+                res.raising_paths += 1
             self._check_raise(ctx, contract, ns, pr.exc)
             return
         ns.__dict__["result"] = result
+        if res is not None:
+            res.normal_paths += 1
         # normal return
         for label, c in self.run_spec(ctx, lambda: contract.clauses("post", ns)):
             ctx.oblige("%s/post#%s" % (short(ctx.func), label), lift_bool(c), kind="post")
@@ -1311,6 +1320,8 @@ class Engine:
             return a.cls is b.cls
         if isinstance(a, V.Sentinel) or isinstance(b, V.Sentinel):
             return a is b
+        if isinstance(a, (V.ClassTagV, V.ClassVal)) and isinstance(b, (V.ClassTagV, V.ClassVal)):
+            return self.class_tag_eq(ctx, a, b)
         if isinstance(a, V.EnumV) and isinstance(b, V.EnumV):
             return self.py_eq(ctx, a, b)
         if z3.is_expr(a) and z3.is_bool(a) and isinstance(b, bool):
